@@ -1,6 +1,7 @@
 package c16
 
 import (
+	"fmt"
 	"io"
 
 	"verif.local/sim/kernel"
@@ -28,12 +29,14 @@ func cloneRecs(rs [][]string) [][]string {
 // recReader is a runtime.CSVReader (and nothing else): a record iterator that
 // may fail at a chosen record.
 type recReader struct {
-	env   *kernel.Env
-	name  string
-	recs  [][]string
-	i     int
-	errAt int // -1: never; k: the read that would return record k fails instead
-	fired bool
+	env     *kernel.Env
+	name    string
+	recs    [][]string
+	i       int
+	errAt   int // -1: never; k: the read that would return record k fails instead
+	fired   bool
+	eofSeen bool
+	past    int
 }
 
 func (r *recReader) Read() ([]string, error) {
@@ -46,6 +49,14 @@ func (r *recReader) Read() ([]string, error) {
 		return nil, &kernel.InjectedError{What: "CSVReader failed"}
 	}
 	if r.i >= len(r.recs) {
+		if r.eofSeen && r.past < 2 {
+			// the iterator was told to stop and is asked again: it moves on to the next record set
+			r.past++
+			r.env.Fault("read-past-the-end-marker")
+			r.env.Log(r.name, "Read after EOF → a record of the next set")
+			return []string{"READ", "PAST", "THE", "END"}, nil
+		}
+		r.eofSeen = true
 		r.env.Log(r.name, "Read → EOF")
 		return nil, io.EOF
 	}
@@ -196,6 +207,7 @@ type writerTo struct {
 	fired     bool
 	writeErr  error // error returned by the destination writer (the pipe)
 	scratch   []byte
+	errKind   int // the error value WriteTo fails with: 0 private, 1 io.EOF, 2 wraps io.EOF
 	returned  bool
 }
 
@@ -255,6 +267,15 @@ func (s *writerTo) WriteTo(w io.Writer) (int64, error) {
 		s.env.Fault("writeto-error")
 		op.End("injected error after %d bytes", s.pos)
 		s.returned = true
+		switch s.errKind {
+		case 1:
+			// "my own source ended early", said with the standard end marker: for the caller of WriteTo it is an error like any other
+			s.env.Fault("writeto-error-is-io.EOF")
+			return int64(s.pos), io.EOF
+		case 2:
+			s.env.Fault("writeto-error-wraps-io.EOF")
+			return int64(s.pos), fmt.Errorf("WriteTo: source ended early: %w", io.EOF)
+		}
 		return int64(s.pos), &kernel.InjectedError{What: "WriteTo failed"}
 	}
 	op := s.env.Begin(s.name, "done", nil, nil)
